@@ -54,9 +54,14 @@ ASSUMPTIONS = [
     "EPR sockets are matched (socket s at A names (B, t) iff socket t at B names (A, s)) and a request names the node "
     "its socket is bound to -- the SDK contract",
     "one host per node; it is blocking (the next message is sent after the Done of the previous one) except in the "
-    "directed concurrent-create scenarios, where ONE host submits its 2-3 create-and-keep subroutines (two or three "
-    "sockets to one peer, or towards two neighbours) without waiting for the previous Done, so that several create "
-    "requests are in flight at one node at once; all requests of such a scenario go in directions that do not cross",
+    "directed concurrent-create scenarios, where ONE host submits its 2-3 create subroutines (two or three "
+    "sockets to one peer, towards two neighbours, or -- create-and-keep and measure-directly -- 2-3 requests on ONE "
+    "socket pair) without waiting for the previous Done, so that several create "
+    "requests are in flight at one node at once; all requests of such a scenario go in directions that do not cross. "
+    "Requests pipelined on one socket pair are judged by the oracle only (pairs attributed to requests by create id, "
+    "netqasm writes a finished pair to the first pending request of the socket); the model executes cmd_epr atomically",
+    "the network configuration file lists the nodes in arbitrary (mostly non-alphabetical) order; node ids are the "
+    "positions in the sorted list of names",
     "virtual nodes have capacity for the requested pairs (a refusal for lack of capacity is C11's subject; the leak it "
     "causes is reported under the key create-failure-leaks)",
     "error-free histories: the Lean theorems speak about runs of the model without an error result",
@@ -286,6 +291,8 @@ def sub_scenario(sc, keep, fifo):
     if sc.get("pipeline"):
         out["pipeline"] = list(sc["pipeline"])
         out["pipe_gap"] = 0 if fifo else sc.get("pipe_gap", 0)
+    if sc.get("order"):
+        out["order"] = list(sc["order"])
     return out
 
 
@@ -434,7 +441,10 @@ class Runner:
         # netqasm keeps the executors' shared memories in a process-global table keyed by (node name, app id)
         from netqasm.sdk.shared_memory import SharedMemoryManager
         SharedMemoryManager.reset_memories()
-        nq = S.NqNet(sorted(nodes), max_qubits=max_qubits, rng=random.Random(sc["rng"]))
+        # the network configuration file lists the nodes in the order of the scenario (`order`, else `nodes`: a random
+        # sample, a rotation, a reversed list ... -- in general NOT alphabetical); node ids are, by definition
+        # (get_node_id_from_net_config, the SDK), the positions in the SORTED list of names whatever the file order
+        nq = S.NqNet(config_order(sc), max_qubits=max_qubits, rng=random.Random(sc["rng"]))
         ids = {n: i for i, n in enumerate(sorted(nodes))}
         names = {i: n for n, i in ids.items()}
         EX = nq._EX
@@ -488,6 +498,7 @@ class Runner:
                     mine = [q for q in reqlog[n] if q["role"] == "c"]
                     if mine:
                         cidmap[(n, remote_node_id, c)] = mine[-1]
+                        mine[-1].setdefault("cid", c)
                     return c
 
                 def cmd_epr(**kw):
@@ -623,6 +634,14 @@ class Runner:
         return obs
 
 
+def config_order(sc):
+    """the order in which the network configuration file lists the nodes of this scenario"""
+    order = list(sc.get("order") or sc["nodes"])
+    if sorted(order) != sorted(sc["nodes"]):
+        raise core.MachineryError("scenario %r: `order` is not a permutation of `nodes`" % (sc.get("id"),))
+    return order
+
+
 def _is_subroutine(raw):
     from netqasm.backend.messages import deserialize_host_msg
     return type(deserialize_host_msg(raw)).__name__ == "SubroutineMessage"
@@ -672,6 +691,69 @@ def request_results(sc, obs):
     return res
 
 
+def same_socket_groups(sc):
+    """lists of >= 2 request indices that ONE pipelined host creates on the same socket pair in the same direction"""
+    pipe = set(sc.get("pipeline") or [])
+    groups = {}
+    for ri, r in enumerate(sc["reqs"]):
+        a, _s, b, _t = sc["links"][r["link"]]
+        if (a if r["dir"] == 0 else b) in pipe:
+            groups.setdefault((r["link"], r["dir"]), []).append(ri)
+    return [g for g in groups.values() if len(g) > 1]
+
+
+def regroup_same_socket(sc, obs, rr, viol, notes):
+    """Several create requests in flight on ONE socket pair.  Which result array a finished pair is written to is
+    decided by netqasm's Executor (third party, trusted): the FIRST pending create request of that (remote node,
+    socket), and at the receiver the pending receive, i.e. in order of completion / delivery, whichever request the
+    pair was made for (a request with basis rotations is overtaken by one without).  So the arrays of such a group
+    are judged as ONE pool per side, and a pair is attributed to the request whose create id it carries (create ids
+    are drawn in program order, recorded from outside): every request must find exactly its n pairs on each side,
+    in the order of creation; everything else (sequence numbers, node ids, directionality, bases, outcomes, the
+    registers of the halves) is then judged by the ordinary clauses."""
+    for g in same_socket_groups(sc):
+        cids = {}
+        for ri in g:
+            r = sc["reqs"][ri]
+            a, _s, b, _t = sc["links"][r["link"]]
+            n = a if r["dir"] == 0 else b
+            ops = [op for sub in sc["progs"].get(n, []) for op in sub]
+            k = ops.index(["c", ri]) if ["c", ri] in ops else None
+            log = obs["reqlog"][n]
+            cids[ri] = log[k].get("cid") if k is not None and k < len(log) and log[k]["role"] == "c" else None
+        if any(c is None for c in cids.values()) or len(set(cids.values())) != len(g):
+            continue
+        if any(rr.get(ri, [None, None])[side] is None or len(rr[ri][side]) != OK_FIELDS * sc["reqs"][ri]["n"]
+               or any(v is None for v in rr[ri][side]) for ri in g for side in (0, 1)):
+            continue        # the count clauses of the oracle speak
+        new = {ri: [None, None] for ri in g}
+        ok = True
+        for side in (0, 1):
+            by = {ri: [] for ri in g}
+            for ri in g:
+                for sl in slices(rr[ri][side]):
+                    owner = [rj for rj in g if cids[rj] == sl[1]]
+                    if owner:
+                        by[owner[0]].append(sl)
+                    else:
+                        ok = False
+            if not ok or any(len(by[ri]) != sc["reqs"][ri]["n"] for ri in g):
+                viol("counts:same-socket-group",
+                     "requests %s pipelined on one socket pair (create ids %s): the %s results carry create ids %s" % (
+                         g, [cids[ri] for ri in g], "creator" if side == 0 else "receiver",
+                         [sl[1] for ri in g for sl in slices(rr[ri][side])]))
+                ok = False
+                break
+            for ri in g:
+                new[ri][side] = [v for sl in by[ri] for v in sl]
+        if not ok:
+            continue
+        if any(new[ri] != rr[ri] for ri in g):
+            notes["same-socket-results-out-of-request-order"] = notes.get("same-socket-results-out-of-request-order", 0) + 1
+        for ri in g:
+            rr[ri] = new[ri]
+
+
 def oracle(sc, obs, table, viol, notes):
     """judge one execution; viol(key, what)"""
     ids = obs["ids"]
@@ -710,6 +792,7 @@ def oracle(sc, obs, table, viol, notes):
     if not obs["locks_free"]:
         viol("locks-held", "a lock is still held when the network is idle")
     rr = request_results(sc, obs)
+    regroup_same_socket(sc, obs, rr, viol, notes)
     snap, joint = obs["snap"], obs["joint"]
     where = {}       # (node, virt num) -> (register index in joint, position)
     for gi, g in enumerate(joint):
@@ -916,7 +999,9 @@ def run(ctx):
     res = core.Result()
     res.rule = ("random scenarios: 2-4 nodes, 1-3 matched socket pairs, 1-6 requests of 1-4 pairs (K / M with RandomBasis "
                 "NONE/XZ/XYZ and arbitrary probability parameters), opposite directions at once, one SDK program per "
-                "node split into 1..k subroutines, start offsets, schedulers Fifo / Random / DelayInjection / PCT; plus "
+                "node split into 1..k subroutines, start offsets, schedulers Fifo / Random / DelayInjection / PCT, config "
+                "file listing the nodes in random order; pipelined hosts (2-3 sockets, 2 neighbours, 2-3 K or M requests "
+                "on ONE socket pair); plus "
                 "the fixed corpus (one K, one M per basis set, both directions, receiver at capacity) and the exhaustive "
                 "weight / basis-set / outcome tables; non-trivial = at least one request completed; distinct by descriptor")
     table = _md_table()
@@ -953,8 +1038,9 @@ def run(ctx):
             res.count("req:%s" % r["typ"] + (":%s/%s" % (r["rbl"], r["rbr"]) if r["typ"] == "M" else ""))
             res.count("pairs", r["n"])
         res.count("empty-polls", sum(1 for e in obs["ev"] if e[0] == "recv" and e[4] is None))
-        res.case({k: sc[k] for k in ("nodes", "links", "reqs", "progs", "sched", "starts", "pipeline", "pipe_gap") if k in sc},
-                 nontrivial=True)
+        res.case({k: sc[k] for k in ("nodes", "order", "links", "reqs", "progs", "sched", "starts", "pipeline", "pipe_gap")
+                  if k in sc}, nontrivial=True)
+        res.count("config-file-order:" + ("alphabetical" if config_order(sc) == sorted(sc["nodes"]) else "not-alphabetical"))
         if sc.get("pipeline"):
             # how many pairs were being created at one node at the same time (the point of these scenarios)
             res.count("concurrent:max-pairs-in-flight-at-one-node=%d" % max(list(obs["maxopen"].values()) + [0]))
@@ -976,6 +1062,12 @@ def run(ctx):
                         rep = {"scenario": s1, "what": what, "shrunk_from": sc["id"]}
                         break
                 res.violation(key, what, rep)
+            return
+        if same_socket_groups(sc):
+            # oracle only: the model `Epr` executes cmd_epr atomically at the delivery of the half (`pair` line), so the
+            # order in which several cmd_epr in flight on ONE socket pair read the sequence counter (before the send)
+            # and netqasm's attribution of finished pairs to the first pending request are not events of the model
+            res.count("concurrent:same-socket-pair:oracle-only")
             return
         if ctx.lean_ok:
             t = tie_lines(sc, obs)
@@ -1018,6 +1110,9 @@ def run(ctx):
         if k == "seq-shared-across-directions":
             res.notes.append("%d socket(s) carried pairs of both directions with the SAME sequence number (the counter is "
                              "per creator; such results differ in the directionality flag only)" % v)
+        if k == "same-socket-results-out-of-request-order":
+            res.notes.append("%d execution(s) with requests pipelined on one socket pair returned the pairs in arrays of "
+                             "other requests of that socket (netqasm: first pending request first); judged per create id" % v)
         if k == "negative-weight":
             res.notes.append("%d call(s) of random.choices received a negative weight (p1 + p2 > 256 after the %% 256 "
                              "reduction; host-controlled input; theorems basis_weights, basis_weights_three_negative)" % v)
@@ -1074,9 +1169,12 @@ def table_queries(runner, lines, exp, table, thorough):
 
 
 def corpus():
-    def sc(idx, nodes, links, reqs, progs, sched=None, starts=None):
-        return {"id": "corpus%d" % idx, "nodes": nodes, "links": links, "reqs": reqs, "progs": progs,
-                "sched": sched or {"kind": "fifo", "seed": 0}, "starts": starts or {n: 0 for n in nodes}, "rng": 11 + idx}
+    def sc(idx, nodes, links, reqs, progs, sched=None, starts=None, order=None):
+        d = {"id": "corpus%d" % idx, "nodes": nodes, "links": links, "reqs": reqs, "progs": progs,
+             "sched": sched or {"kind": "fifo", "seed": 0}, "starts": starts or {n: 0 for n in nodes}, "rng": 11 + idx}
+        if order:
+            d["order"] = order
+        return d
     out = []
     ab = [["Alice", 0, "Bob", 0]]
     out.append(sc(0, ["Alice", "Bob"], ab, [{"link": 0, "dir": 0, "n": 1, "typ": "K"}],
@@ -1118,6 +1216,28 @@ def corpus():
                    {"link": 0, "dir": 1, "n": 1, "typ": "K"}],
                   {"Alice": [[["c", 0]], [["r", 2]]], "Charlie": [[["c", 1]]], "Bob": [[["r", 0], ["r", 1]], [["c", 2]]]},
                   sched={"kind": "pct", "seed": 3, "depth": 3}, starts={"Alice": 0, "Bob": 60, "Charlie": 5}))
+    k += 1
+    # the configuration file lists the nodes in NON-alphabetical order (node ids stay the positions in the sorted
+    # list): every ordered pair of a 3-node network listed as Charlie, Alice, Bob / Bob, Charlie, Alice / reversed,
+    # K and M, and a 2-node network listed as Bob, Alice
+    abc = ["Alice", "Bob", "Charlie"]
+    for order in (["Charlie", "Alice", "Bob"], ["Bob", "Charlie", "Alice"], ["Charlie", "Bob", "Alice"]):
+        for a in abc:
+            for b in abc:
+                if a == b:
+                    continue
+                typ = "K" if (abc.index(a) + abc.index(b) + len(out)) % 2 else "M"
+                r = {"link": 0, "dir": 0, "n": 2, "typ": typ}
+                if typ == "M":
+                    r.update({"rbl": "XZ", "rbr": "XYZ", "pl": [128, 0], "pr": [85, 85]})
+                out.append(sc(k, list(abc), [[a, 0, b, 1]], [r], {a: [[["c", 0]]], b: [[["r", 0]]]}, order=order))
+                k += 1
+    for typ in ("K", "M"):
+        r = {"link": 0, "dir": 1, "n": 1, "typ": typ}
+        if typ == "M":
+            r.update({"rbl": "NONE", "rbr": "XZ", "pl": [0, 0], "pr": [128, 0]})
+        out.append(sc(k, ["Alice", "Bob"], ab, [r], {"Bob": [[["c", 0]]], "Alice": [[["r", 0]]]}, order=["Bob", "Alice"]))
+        k += 1
     return out
 
 
@@ -1138,7 +1258,12 @@ def concurrent_scenarios(rng, rounds):
             assert c == creator and rcv != creator
             progs[c].append([["c", i]])
             progs[rcv].append([["r", i]])
-        shapes.append((name, nodes, links, [dict(r, typ="K") for r in reqs], progs))
+        shapes.append((name, nodes, links, [dict(r, typ=r.get("typ", "K")) for r in reqs], progs))
+
+    def md(n, rbl="XZ", rbr="XYZ"):
+        return {"link": 0, "dir": 0, "n": n, "typ": "M", "rbl": rbl, "rbr": rbr,
+                "pl": {"NONE": [0, 0], "XZ": [128, 0], "XYZ": [85, 85]}[rbl],
+                "pr": {"NONE": [0, 0], "XZ": [128, 0], "XYZ": [85, 85]}[rbr]}
 
     for names in (["Alice", "Bob", "Charlie"], ["Charlie", "Alice", "Bob"], ["Bob", "Charlie", "Alice"]):
         a, b, c = names
@@ -1154,6 +1279,15 @@ def concurrent_scenarios(rng, rounds):
         # two sockets to one neighbour and one to the other
         shape("3-mixed", [a, b, c], [[a, 0, b, 0], [a, 1, c, 0], [a, 2, b, 1]],
               [{"link": 0, "dir": 0, "n": 1}, {"link": 1, "dir": 0, "n": 2}, {"link": 2, "dir": 0, "n": 1}])
+        # two / three requests pipelined on ONE socket pair (the sequence-number counter of that pair is read and
+        # advanced by several cmd_epr in flight at once): measure-directly and create-and-keep, n = 1..2 each.  Which
+        # of the receiver's (blocking, consecutive) receives obtains which pair is decided by the order of delivery
+        # (FIFO per socket), see `regroup_same_socket`.
+        shape("same-socket-MM", [a, b], [[a, 0, b, 0]], [md(1), md(1, "NONE", "NONE")])
+        shape("same-socket-MM-n2", [a, b], [[a, 1, b, 0]], [md(2, "XYZ", "XZ"), md(1)])
+        shape("same-socket-MMM", [a, b], [[a, 0, b, 2]], [md(1), md(2), md(1, "XYZ", "NONE")])
+        shape("same-socket-KK", [a, b], [[a, 0, b, 0]], [{"link": 0, "dir": 0, "n": 1}, {"link": 0, "dir": 0, "n": 1}])
+        shape("same-socket-KK-n2", [a, b], [[b, 1, a, 0]], [{"link": 0, "dir": 1, "n": 2}, {"link": 0, "dir": 1, "n": 2}])
     out = []
     k = 0
     for rnd in range(rounds):
